@@ -567,7 +567,7 @@ func replace(root *Value, p Path, nv *Value) *Value {
 }
 
 // Faults: the schema faults applied at a path.
-var Faults = []string{"null", "string", "number", "bool", "array", "object", "empty", "absent", "duplicate", "oversized", "negative", "nested-self"}
+var Faults = []string{"null", "string", "number", "bool", "array", "object", "empty", "absent", "duplicate", "oversized", "negative", "nested-self", "prefix-half", "prefix-one", "suffix-cut"}
 
 // ApplyFault returns a mutated deep copy of root (root itself is untouched). ok=false when the fault does not apply at p.
 func ApplyFault(root *Value, p Path, fault string, k int) (*Value, bool) {
@@ -650,6 +650,25 @@ func ApplyFault(root *Value, p Path, fault string, k int) (*Value, bool) {
 			return replace(c, p, N("123456789012345678901234567890123456789012345678901234567890")), true
 		}
 		return nil, false
+	case "prefix-half", "prefix-one", "suffix-cut":
+		// a string cut short: its first half, its first character, or all but its last character (a date without
+		// its time, a version without its patch level, an identifier without its prefix's tail)
+		if val.Kind != String {
+			return nil, false
+		}
+		rs := []rune(val.Str)
+		if len(rs) < 2 {
+			return nil, false
+		}
+		switch fault {
+		case "prefix-half":
+			rs = rs[:len(rs)/2]
+		case "prefix-one":
+			rs = rs[:1]
+		default:
+			rs = rs[:len(rs)-1]
+		}
+		return replace(c, p, S(string(rs))), true
 	case "negative":
 		if val.Kind == Number {
 			return replace(c, p, N("-1.5e3")), true
